@@ -875,8 +875,10 @@ ANIreadann(int32 ann_id, /* IN: annotation id (handle) */
             HE_REPORT_GOTO("Failed to go past tag/ref", FAIL);
     }
 
-    /* read its annotation now..*/
-    if ((int32)FAIL == Hread(aid, ann_len, ann))
+    /* read its annotation now..
+       (nothing to read when only the terminator fits: a zero length would
+       make Hread() deliver the whole rest of the element) */
+    if (ann_len > 0 && (int32)FAIL == Hread(aid, ann_len, ann))
         HE_REPORT_GOTO("Failed to read annotation", FAIL);
 
     /* If Label need to NULL terminate string */
